@@ -198,8 +198,8 @@ const c10mDomainLen = 12
 // leaves the data untouched. A nil or empty extension is valid.
 func VerifC10ValidateTLV() { c10mValidateTLV(5) }
 
-// VerifC10ValidateTLVDeep: the same with arbitrary extensions of <= 7 bytes.
-func VerifC10ValidateTLVDeep() { c10mValidateTLV(7) }
+// VerifC10ValidateTLVDeep: the same with arbitrary extensions of <= 8 bytes.
+func VerifC10ValidateTLVDeep() { c10mValidateTLV(8) }
 
 func c10mValidateTLV(nmax int) {
 	c10Config()
@@ -289,8 +289,8 @@ func c10mEqChanUpd(x, y *ChannelUpdate1) bool {
 // byte-identical.
 func VerifC10ChanUpdBytes() { c10mChanUpdBytes(4) }
 
-// VerifC10ChanUpdBytesDeep: the same with arbitrary extensions of <= 6 bytes.
-func VerifC10ChanUpdBytesDeep() { c10mChanUpdBytes(6) }
+// VerifC10ChanUpdBytesDeep: the same with arbitrary extensions of <= 7 bytes.
+func VerifC10ChanUpdBytesDeep() { c10mChanUpdBytes(7) }
 
 func c10mChanUpdBytes(nmax int) {
 	c10Config()
@@ -298,23 +298,24 @@ func c10mChanUpdBytes(nmax int) {
 		ext []byte
 		pin = -1
 	)
-	switch vChoice("xs", 4) {
+	switch vChoice("xs", 3) {
 	case 0:
 		ext = c10mArb(nmax)
 	case 1:
+		if vChoice("cut", 2) == 1 {
+			// truncated fixed part
+			maxHtlc := vChoice("maxhtlc", 2)
+			n := c10mChanUpdFixed - 1 + 8*maxHtlc
+			b := vBytes("h", n)
+			vAssume(b[108]&1 == byte(maxHtlc))
+			m := &ChannelUpdate1{}
+			vAssert(m.Decode(bytes.NewReader(b), 0) != nil, "a truncated channel_update is refused")
+			vReach("truncated")
+			return
+		}
 		ext, pin = c10mHugeLen()
-	case 2:
-		ext = c10mFeeShape()
 	default:
-		// truncated fixed part
-		maxHtlc := vChoice("maxhtlc", 2)
-		n := c10mChanUpdFixed - 1 + 8*maxHtlc
-		b := vBytes("h", n)
-		vAssume(b[108]&1 == byte(maxHtlc))
-		m := &ChannelUpdate1{}
-		vAssert(m.Decode(bytes.NewReader(b), 0) != nil, "a truncated channel_update is refused")
-		vReach("truncated")
-		return
+		ext = c10mFeeShape()
 	}
 	maxHtlc := vChoice("maxhtlc", 2)
 	fixed := c10mChanUpdFixed + 8*maxHtlc
@@ -394,8 +395,8 @@ func c10mAlias() []byte {
 // ErrRecordTooLarge; an accepted message re-encodes to exactly the input.
 func VerifC10AnnBytes() { c10mAnnBytes(4) }
 
-// VerifC10AnnBytesDeep: the same with arbitrary extensions of <= 6 bytes.
-func VerifC10AnnBytesDeep() { c10mAnnBytes(6) }
+// VerifC10AnnBytesDeep: the same with arbitrary extensions of <= 7 bytes.
+func VerifC10AnnBytesDeep() { c10mAnnBytes(7) }
 
 func c10mAnnBytes(nmax int) {
 	c10Config()
@@ -425,17 +426,18 @@ func c10mAnnBytes(nmax int) {
 		ext []byte
 		pin = -1
 	)
-	switch vChoice("xs", 3) {
+	switch vChoice("xs", 2) {
 	case 0:
 		ext = c10mArb(nmax)
-	case 1:
-		ext, pin = c10mHugeLen()
 	default:
-		b := vBytes("h", fixed-1)
-		pinFixed(b)
-		vAssert(mk().Decode(bytes.NewReader(b), 0) != nil, "a truncated announcement is refused")
-		vReach("truncated")
-		return
+		if vChoice("cut", 2) == 1 {
+			b := vBytes("h", fixed-1)
+			pinFixed(b)
+			vAssert(mk().Decode(bytes.NewReader(b), 0) != nil, "a truncated announcement is refused")
+			vReach("truncated")
+			return
+		}
+		ext, pin = c10mHugeLen()
 	}
 	head := vBytes("h", fixed)
 	pinFixed(head)
@@ -687,19 +689,20 @@ func c10mReplyRangeBytes(nmax int) {
 		pin    = -1
 		npairs = -1
 	)
-	switch vChoice("xs", 4) {
+	switch vChoice("xs", 3) {
 	case 0:
 		ext = c10mArb(nmax)
 	case 1:
+		if vChoice("cut", 2) == 1 {
+			b := vBytes("h", 40)
+			m := &ReplyChannelRange{}
+			vAssert(m.Decode(bytes.NewReader(b), 0) != nil, "a truncated reply_channel_range is refused")
+			vReach("truncated")
+			return
+		}
 		ext, pin = c10mHugeLen()
-	case 2:
-		ext, npairs = c10mTimestampsShape()
 	default:
-		b := vBytes("h", 40)
-		m := &ReplyChannelRange{}
-		vAssert(m.Decode(bytes.NewReader(b), 0) != nil, "a truncated reply_channel_range is refused")
-		vReach("truncated")
-		return
+		ext, npairs = c10mTimestampsShape()
 	}
 	head := vBytes("h", 41)
 	body := c10Cat(head, lst, ext)
@@ -719,7 +722,7 @@ func c10mReplyRangeBytes(nmax int) {
 	m := &ReplyChannelRange{}
 	err := m.Decode(bytes.NewReader(append([]byte{}, body...)), 0)
 	vObserve("accepted", err == nil)
-	vObserve("npairs", npairs)
+	vObserve("npairs", npairs+1)
 	vAssert((err == nil) == want, "reply_channel_range is accepted exactly when list and extension are well-formed and timestamps (if present) come one pair per short channel id")
 	if err != nil {
 		vReach("reject")
